@@ -14,7 +14,15 @@
      gv3 a                  -> v dv d2v  CubicSpline::getValues(f, df, d2f, x)
      int a b                -> I         CubicSpline::computeIntegral
      mean a b               -> m         CubicSpline::computeMeanValue
-   (e = 0|1; spline queries answer `nospline` when the last table has no slopes) -/
+   (e = 0|1; spline queries answer `nospline` when the last table has no slopes)
+   Variants `op:variant` (tab:it, tab:dq, lin:i, lin:f, spl:agg, ...) are other ways of calling the same C++
+   entry points (iterator overload, query point of type int / float converted exactly, points built by
+   aggregate initialisation): the model answers them as the plain op.
+     tabm nx ny x(nx) y(ny) -> fail:size | fail:ordinate | fail:inputs
+                               (the three size tests of setCollocationPoints(const AContainer&, const OContainer&))
+     uninit                 -> uninit x 6  (every accessor of a CubicSpline without collocation points raises
+                               CubicSplineUninitialised: getValue, operator(), getValues x 2, computeIntegral,
+                               computeMeanValue) -/
 import TfelVerif.C11.Model
 open TfelVerif.C11
 
@@ -62,8 +70,35 @@ structure State where
 def flag (s : String) : Option Bool :=
   if s = "1" then some true else if s = "0" then some false else none
 
+/-- `setCollocationPoints(const AContainer& x, const OContainer& y)` : the tests made before the iterator
+overload is called (`none` : the sizes are accepted) -/
+def sizeCheck (nx ny : Nat) : Option String :=
+  if nx < 1 then some "fail:size"
+  else if ny < 1 then some "fail:ordinate"
+  else if nx ≠ ny then some "fail:inputs"
+  else none
+
+/-- `op:variant` ↦ `op` -/
+def baseOp (s : String) : String :=
+  match s.splitOn ":" with
+  | b :: _ => b
+  | [] => s
+
 def answer (st : State) (line : String) : State × String :=
-  match line.trimAscii.toString.splitOn " " with
+  let toks := line.trimAscii.toString.splitOn " "
+  let toks := match toks with
+    | o :: r => baseOp o :: r
+    | [] => []
+  match toks with
+  | ["uninit"] => (st, "uninit uninit uninit uninit uninit uninit")
+  | "tabm" :: nxs :: nys :: rest =>
+    match nxs.toNat?, nys.toNat?, parseAll rest with
+    | some nx, some ny, some v =>
+      if v.size ≠ nx + ny then (st, "bad-op") else
+      match sizeCheck nx ny with
+      | some r => ({}, r)
+      | none => (st, "bad-op")
+    | _, _, _ => (st, "bad-op")
   | "tab" :: ns :: rest =>
     match ns.toNat?, parseAll rest with
     | some n, some v =>
